@@ -126,6 +126,14 @@ def cases(rng, tier):
 				# two elements of one list with the same value that differ in their parameters only (item;level=1, item;level=2)
 				els[-1] = (els[-1][0], els[0][1], els[-1][2])
 			yield ('list', tuple(els))
+	# cookie attributes whose values carry letter case; boundaries of every permitted length
+	for dom in (u'Example.COM', u'.Sub.Example.org', u'EXAMPLE', u'B\u00dcCHER.example'):
+		yield ('el', ('setcookie', (u'sid', u'abc'), ((u'domain', dom),)))
+		yield ('el', ('setcookie', (u'sid', u'abc'), ((u'Domain', dom), (u'path', u'/A/b'))))
+		yield ('list', (('setcookie', (u'a', u'1'), ((u'domain', dom),)), ('setcookie', (u'b', u'2'), ((u'Path', u'/X'),))))
+	for ln in (1, 69, 70, 71, 100, 200, 201):
+		yield ('el', ('ctype', u'multipart/form-data', ((u'boundary', u'b' * ln),)))
+		yield ('el', ('ctype', u'multipart/mixed', ((u'boundary', u"x'()+_,-./:=? " * (ln // 14) + u'y'),)))
 	# many parameters on one element, long lists, long values (counts around the numbers a limit or a cache would have)
 	for cnt in (9, 17, 33, 65, 129):
 		ps = tuple(sorted((u'p%d' % i, value_text(rng)) for i in range(cnt)))
@@ -274,8 +282,14 @@ def oracle(case):
 	fid = classify(els)
 	try:
 		objs = [make(e) for e in els]
-	except Exception:
-		return None  # the constructor itself refuses (sanitize): not a round-trip question
+	except Exception as e:
+		# the constructor itself refuses (sanitize): not a round-trip question - unless what it refuses is a plain multipart boundary of a length
+		# the library has always taken (1 to 200 boundary characters, the last one not a blank)
+		import re as _re
+		for (k_, v_, ps_) in els:
+			if k_ == 'ctype' and len(ps_) == 1 and ps_[0][0].lower() == u'boundary' and _re.match(u"^[0-9A-Za-z'()+_,./:=? -]{0,199}[0-9A-Za-z'()+_,./:=?-]$", ps_[0][1]):
+				return {'what': 'a Content-Type element with a boundary of %d boundary characters is refused: %s' % (len(ps_[0][1]), exc_name(e)), 'elements': repr(els)[:200], 'finding': None}
+		return None
 	kind = els[0][0]
 	cls = cls_of(kind)
 	try:
